@@ -219,6 +219,10 @@ def gen_model(rng, max_levels, body_stmts):
                 for pn in ('x', 'y', 't'):
                     if r.random() < 0.45:
                         params.append((pn, {'x': 'integer', 'y': r.choice(['integer', 'string']), 't': 'boolean'}[pn]))
+            if params and r.random() < 0.15:
+                # two parameters whose names differ in letter case only are two parameters
+                pn, pt = r.choice(params)
+                params.append((pn.upper(), r.choice(['integer', pt])))
             recursive = kind != 'derived' and (mutual or r.random() < 0.25)
             if recursive:
                 params.append(('cnt', 'integer'))
@@ -435,7 +439,86 @@ def gen_entries(rng, callables, enums, consts, pop):
                 else:
                     entries.append(['set', 'B', bi, 'n', r.choice([13, -8, 40])])
             entries.append(['dattr', c['ns'], idx, c['name']])
+    # any callable: invoke, change the population from Python, invoke again with the same arguments - the second
+    # invocation selects / navigates / reads in the CHANGED population (nothing may be remembered from the first)
+    callers = [c for c in callables if c['kind'] in ('function', 'bridge', 'classop', 'instop')
+               and (c['kind'] != 'instop' or pop['inst'][c['ns']])]
+    r.shuffle(callers)
+    for c in callers[:r.choice([1, 2, 2])]:
+        kw = {}
+        for n, t in c['params']:
+            kw[n] = (r.choice([0, 1, 2]) if n == 'cnt' else r.choice([0, 1, 2, -3, 6]) if t == 'integer'
+                     else r.choice(G.STRINGS) if t == 'string' else r.random() < 0.5)
+        if c['kind'] == 'function':
+            call = ['fn', c['name'], kw]
+        elif c['kind'] == 'bridge':
+            call = ['brg', c['ns'], c['name'], kw]
+        elif c['kind'] == 'classop':
+            call = ['cop', c['ns'], c['name'], kw]
+        else:
+            call = ['iop', c['ns'], r.randrange(len(pop['inst'][c['ns']])), c['name'], kw]
+        entries.append(call)
+        for _ in range(r.randint(1, 2)):
+            k = r.random()
+            if k < 0.5 or not (na and nb):
+                cls = r.choice([x for x in ('A', 'B') if pop['inst'][x]] or ['A'])
+                if not pop['inst'][cls]:
+                    continue
+                entries.append(['set', cls, r.randrange(len(pop['inst'][cls])), r.choice(['n', 'n', 's']), None])
+                entries[-1][4] = r.choice([17, -9, 33, 2]) if entries[-1][3] == 'n' else r.choice(['k', 'ab', ''])
+            else:
+                bi = r.randrange(nb)
+                if bi in link:
+                    entries.append(['unrelate', 'B', bi, 'A', link.pop(bi)])
+                else:
+                    ai = r.randrange(na)
+                    entries.append(['relate', 'B', bi, 'A', ai])
+                    link[bi] = ai
+        entries.append(list(call))
     return entries
+
+
+BOOM_TAILS = [('zq9 = 1 / 0;', 'division by zero'), ('zq9 = nosuchvar9;', 'unknown symbol'),
+              ('zq9 = qa9.nosuchattr;', 'unknown attribute'),
+              ('select any qe9 from instances of A where (selected.n == 987654); zq9 = qe9.n;', 'attribute read through an empty handle')]
+
+
+def add_boom(rng, callables, entries):
+    """the family 'a body that fails half way': a function that creates an instance, writes to it, selects - and then
+    fails (no effect of its own) - invoked between the other invocations on the same domain.  The reference runs the
+    function WITHOUT the failing statement; the outcome of the failing invocation itself is not compared, everything
+    after it is (the instance it created is there, later invocations see a fresh scope)."""
+    r = rng
+    cls = r.choice(['A', 'B'])
+    pre = [['create', 'qa9', cls], ['setattr', ['var', 'qa9'], 'n', ['int', r.choice([71, 72, 73])]],
+           ['select_from', 'many', 'qs9', cls, None], ['assign', 'x', ['un', 'cardinality', ['var', 'qs9']]]]
+    fail, what = r.choice(BOOM_TAILS)
+    if 'qe9' in fail:
+        fail = fail.replace('of A', 'of ' + cls)
+    ret = [['return', ['var', 'x']]]
+    sig = _sig('function', 'boom', None, [], 'integer', False)
+    sig.update(recursive=False, level=0, body=pre + ret, cost=1,
+               ref_text=G.render(pre + ret), text=G.render(pre) + fail + '\n' + G.render(ret), fails=what)
+    callables.append(sig)
+    out = []
+    k = r.randrange(len(entries) + 1) if entries else 0
+    head, rest = entries[:k], entries[k:]
+    out = head + [['fn', 'boom', {}, 'fails']]
+    # what was asked before the failure is asked again after it
+    again = [list(e) for e in head if e[0] in ('fn', 'brg', 'cop', 'iop', 'dattr')][-2:]
+    out += again + rest
+    if r.random() < 0.5:
+        out += [['fn', 'boom', {}, 'fails']] + [list(e) for e in again[:1]]
+    return out
+
+
+def blank_failed(case, canon):
+    """the value of an invocation that fails half way is not part of the comparison"""
+    if canon and canon[0] == 'ok':
+        for k, e in enumerate(case['entries']):
+            if e[0] == 'fn' and len(e) > 3 and e[3] == 'fails' and k < len(canon[1]):
+                canon[1][k] = ['ignored']
+    return canon
 
 
 # ----------------------------------------------------------------------------------------------- wire
@@ -472,7 +555,7 @@ def _ctx_sexp(callables):
     cs = []
     tag = {'function': 'function', 'bridge': 'bridge', 'classop': 'classop', 'instop': 'instop', 'derived': 'derived'}
     for c in callables:
-        tree = oal_sexp.encode(_oal.parse(c['text']))
+        tree = oal_sexp.encode(_oal.parse(c.get('ref_text', c['text'])))
         if c['kind'] == 'function':
             cs.append([Sym('function'), c['name'], tree])
         else:
@@ -565,7 +648,7 @@ def attach_expectations(ctx, cases):
     for c, a in zip(cases, answers):
         ans = loads(a)
         if isinstance(ans, list) and ans and ans[0] == 'ok':
-            c['expect'] = canon_spec(ans)
+            c['expect'] = blank_failed(c, canon_spec(ans))
             yield c
         elif isinstance(ans, list) and ans and ans[0] == 'error':
             ctx.count('dropped_outside_domain')
@@ -641,6 +724,7 @@ def generate(ctx):
     max_levels = ctx.pick(4, 5)
     body_stmts = ctx.pick(7, 12)
     batch = []
+    prev = None
     for i in range(n):
         if ctx.out_of_time():
             break
@@ -661,6 +745,9 @@ def generate(ctx):
                 callables.append(cl)
                 entries = [['fn', 'clash', {}]]
                 family = 'clash'
+        if i % 10 == 4 and entries:
+            entries = add_boom(r.fork('boom'), callables, entries)
+            family = 'boom'
         if i % 50 == 37:
             cp = add_clash(r.fork('casepair'), callables, enums, consts, same=False)
             if cp is not None:
@@ -672,6 +759,9 @@ def generate(ctx):
         ctx.count('generated')
         case = make_case(i, callables, enums, consts, pop, entries, r.fork('shuffle').randint(0, 10 ** 9))
         case['family'] = family
+        if i % 4 == 1 and prev is not None and family not in ('shadow', 'clash'):
+            case['decoy'] = prev
+        prev = {'sql': case['sql'], 'entries': [(e[:3] if e[0] == 'fn' else list(e)) for e in entries if e[0] in ('fn', 'brg', 'cop')][:3]}
         batch.append(case)
         if len(batch) >= 100:
             yield from attach_expectations(ctx, batch)
@@ -782,19 +872,54 @@ def run_impl(case):
                 obs = exp       # the correspondence is not the point of these families
         return {'obs': obs, 'd_fail': fails, 'nontrivial': True, 'key': case['sql'], 'stats': {'family_' + fam: 1}}
     raised = None
+    decoy = case.get('decoy')
+    half = len(case['entries']) // 2
     try:
-        for e in case['entries']:
+        for pos, e in enumerate(case['entries']):
             k = e[0]
+            if decoy is not None and pos == half:
+                _run_decoy(decoy)
             try:
                 values.append(_invoke(domain, insts, e))
-            except Exception as ex:          # an in-domain invocation must not raise: a finding, with the program
+            except Exception as ex:
+                if k == 'fn' and len(e) > 3 and e[3] == 'fails':
+                    values.append(None)      # the invocation that fails half way: its outcome is not compared
+                    continue
+                # an in-domain invocation must not raise: a finding, with the program
                 raised = (len(values), '%s: %s' % (type(ex).__name__, str(ex)[:200]))
                 values.append(_Raised(type(ex).__name__))
                 break
     finally:
         _CALLS = None
-    obs = canon_impl(domain, values)
+    obs = blank_failed(case, canon_impl(domain, values))
     return _judge(case, obs, calls, raised)
+
+
+def _run_decoy(decoy):
+    """ANOTHER model is built and interpreted in the middle of this case (same process, same loader, same modules):
+    nothing of it may reach the domain under test.  Its results are of no interest."""
+    global _CALLS
+    keep = _CALLS
+    _CALLS = None
+    try:
+        _LOADER.input(decoy['sql'], 'decoy')
+        try:
+            other = _LOADER.build_component()
+        finally:
+            del _LOADER.statements[_LOADER_N0:]
+        other.id_generator = _xtuml.IntegerGenerator()
+        for cls in SCHEMA['order']:
+            for _ in range(2):
+                other.new(cls)
+        for e in decoy['entries']:
+            try:
+                _invoke(other, {}, e)
+            except Exception:
+                pass
+    except Exception:
+        pass
+    finally:
+        _CALLS = keep
 
 
 class _Raised(object):
@@ -866,6 +991,9 @@ def _judge(case, obs, calls, raised):
              'call_depth_%d' % min(calls['max'], 8): 1, 'callables': len(case['callables']),
              'levels_%d' % (1 + max(c['level'] for c in case['callables'])): 1}
     stats['family_' + case.get('family', 'graph')] = 1
+    if case.get('decoy') is not None:
+        stats['another_model_interpreted_in_between'] = 1
+    stats['invocations_repeated_after_a_change'] = sum(1 for k, e in enumerate(case['entries']) if e[0] in ('fn', 'brg', 'cop', 'iop') and any(x == e for x in case['entries'][:k]))
     for c in case['callables']:
         stats['callable_' + c['kind']] = stats.get('callable_' + c['kind'], 0) + 1
         if c.get('recursive'):
@@ -902,7 +1030,7 @@ def model_line(case):
 
 
 def model_obs(case, ans):
-    return canon_spec(ans)
+    return blank_failed(case, canon_spec(ans))
 
 
 def shrink_candidates(case):
